@@ -40,8 +40,8 @@ CHECKS = {
             'Trusted: vlib/refsim.py (cross-checks itself with an explicit Kronecker implementation), numpy.',
             'differential', 'DESIGN.md 3 C06'),
     'C07': ('exploration',
-            'deterministic simulation of the real runtime classes (in-memory transport, serialized seeded scheduler, sys.monitoring line-level pre-emption of worker threads) + offline history checker with unique task tags',
-            'The unmodified Worker/AttachedServer/DetachedServer/Manager/Compiler classes run task trees (submit/map/await/next) under seeded delivery orders, random line-level pre-emption and a systematic single pre-emption at every (thread,function,line,occurrence) of the await/result/step paths; the recorded history is checked for result integrity, next() batch disjointness/completeness, exactly-once execution, no spurious error and progress (quiescence with every client answered). Held = no violation on the executed schedules.',
+            'deterministic simulation of the real runtime classes (in-memory transport, serialized seeded scheduler, sys.monitoring line-level pre-emption of worker threads) + offline history checker with unique task tags; plus a real-process stress tier (real runtime processes and sockets, lowered thread switch interval) whose returned values are compared with an interpreter of the documented semantics',
+            'The unmodified Worker/AttachedServer/DetachedServer/Manager/Compiler classes run task trees (submit/map/await/next) under seeded delivery orders, random line-level pre-emption and a systematic single pre-emption at every (thread,function,line,occurrence) of the await/result/step paths; the recorded history is checked for result integrity, next() batch disjointness/completeness, exactly-once execution, no spurious error and progress (quiescence with every client answered). The real-process tier runs the same grammar on real attached/detached runtimes in waves of concurrent compilations. Held = no violation on the executed schedules.',
             SIM_NOTE, 'simnet', 'DESIGN.md 2.5, 3 C07'),
     'C08': ('exploration',
             'pass-level runtime monitor through a real Compiler: unfold of the partitioned circuit vs per-qudit operation sequences of the input; block width; placeholder position; refsim unitary',
@@ -64,7 +64,7 @@ CHECKS = {
             'Trusted: the interpreter in props/c11.py, workloads in vlib/workloads.py.',
             'pass-driver', 'DESIGN.md 3 C11'),
     'C12': ('exploration',
-            'deterministic simulation of the real runtime + history/table checker: no delivery after cancel, no descendant start after every worker processed the CANCEL, tables empty at quiescence, bystanders correct',
+            'deterministic simulation of the real runtime + history/table checker: no delivery after cancel, no descendant start after every worker processed the CANCEL, tables empty at quiescence, bystanders correct; plus a real-process tier (client cancels racing real runtimes, bystander values compared with the interpreter, worker tables read from inside the workers by a probing compilation)',
             'Task trees with in-task cancels at every kind of point, client cancel(task_id), client close()/abrupt death with work in flight, with bystander compilations, under seeded delivery orders and line-level pre-emption; at every quiescent point the tables of every worker/manager/server are read and must hold nothing of cancelled or finished work.',
             SIM_NOTE + ' The tombstone set of cancelled ids and id->connection retention while a client stays connected are excluded, as the statement does.',
             'simnet', 'DESIGN.md 3 C12'),
@@ -153,7 +153,7 @@ def main():
             {'name': 'pass-driver', 'path': 'vlib/compiledrv.py', 'serves_properties': ['C08', 'C09', 'C10', 'C11'], 'kind_free_text': 'real Compiler instances (attached runtime on private ports) running single passes/workflows; oracles on inputs/outputs and PassData'},
             {'name': 'compile-driver', 'path': 'vlib/compilechk.py', 'serves_properties': ['C01', 'C02', 'C03'], 'kind_free_text': 'bqskit.compile() on real runtime processes per case in a subprocess with watchdog; end-to-end oracles; optional in-situ pass monitor injected into workers'},
             {'name': 'simnet', 'path': 'vlib/simnet/', 'serves_properties': ['C07', 'C12', 'C13', 'C14', 'C15'], 'kind_free_text': 'deterministic in-process simulation of the real runtime classes: in-memory transport, serialized seeded scheduler, line-level pre-emption via sys.monitoring, crash injection, offline history checkers'},
-            {'name': 'procnet', 'path': 'vlib/procnet.py', 'serves_properties': ['C14'], 'kind_free_text': 'real runtime processes with real SIGKILL injection and a stable-hang detector'},
+            {'name': 'procnet', 'path': 'vlib/procnet.py', 'serves_properties': ['C07', 'C12', 'C14'], 'kind_free_text': 'real runtime processes on private ports: SIGKILL injection (C14), stress with lowered thread switch interval (C07), client cancels + in-worker table probe (C12); stable-hang detector'},
         ],
         'checks': checks,
         'not_applicable': na,
